@@ -561,4 +561,148 @@ example : violated
     { log := [.begin true, .exec 0 true], runs := 1, body := .err (Err.of .ctx),
       ret := some (Err.of .ctx), mark := some true } = ["ends-exactly-once", "rollback-iff-body-failed"] := by decide
 
+/-! ### round 5: the whole configuration space, no retry, sequences of calls -/
+
+/-- the part of `commonSqlConn.acceptable` that does not depend on options -/
+def builtinAcceptable (e : Option Err) : Bool :=
+  e.isNone || hasCls e .noRows || hasCls e .txDone || hasCls e .canceled || hasCls e .accType
+
+/-- `db.acceptable` of a connection built with ANY list of `WithAcceptable` options, in option order:
+`db.accept` is what the option closures leave (`foldl withAcceptable none`); nil means "not acceptable" -/
+def acceptableOf (fs : List (Option Err → Bool)) (e : Option Err) : Bool :=
+  builtinAcceptable e ||
+    match fs.foldl withAcceptable none with
+    | none => false
+    | some g => g e
+
+theorem acceptableOf_eq (fs : List (Option Err → Bool)) (e : Option Err) :
+    acceptableOf fs e = (builtinAcceptable e || fs.any (· e)) := by
+  have h := withAcceptable_composes fs none e
+  unfold acceptableOf
+  cases hf : fs.foldl withAcceptable none with
+  | none =>
+    rw [hf] at h
+    cases fs with
+    | nil => simp
+    | cons a l => simp at h
+  | some g =>
+    rw [hf] at h
+    cases fs with
+    | nil => simp at h
+    | cons a l =>
+      simp at h
+      simp [h]
+
+theorem brkDo_mark_only (cd dd ba : Bool) (acc acc' : Option Err → Bool) (core : Result) :
+    brkDo cd dd ba acc core = { brkDo cd dd ba acc' core with mark := (brkDo cd dd ba acc core).mark } := by
+  unfold brkDo; cases cd <;> cases ba <;> simp
+
+/-- **Every option set, every constructor argument.**  For a connection built by either constructor with ANY
+list `fs` of `WithAcceptable` functions (arbitrary functions of the error, any number, any order), any connection
+provider answer, any breaker verdict and context state: `TransactCtx` = the breaker wrapper around `transact`
+with `db.acceptable` satisfies all eleven clauses, returns exactly what the configuration-free model returns
+(log, runs, body, error, escaping panic: options never change the transaction), and the breaker is told
+`nil ∨ builtin-acceptable ∨ f₁(err) ∨ … ∨ fₙ(err)` — every installed function is consulted. -/
+theorem all_option_sets_hold (fs : List (Option Err → Bool)) (env : Env) (f : Faults) (b : Body) :
+    holds (brkDo env.ctxDone env.ctxDead env.brkAllow (acceptableOf fs) (transactFn env.connOk f b)) = true ∧
+    violated (brkDo env.ctxDone env.ctxDead env.brkAllow (acceptableOf fs) (transactFn env.connOk f b)) = [] ∧
+    brkDo env.ctxDone env.ctxDead env.brkAllow (acceptableOf fs) (transactFn env.connOk f b) =
+      { transactCtx env f b with
+        mark := (brkDo env.ctxDone env.ctxDead env.brkAllow (acceptableOf fs) (transactFn env.connOk f b)).mark } ∧
+    (∀ m, (brkDo env.ctxDone env.ctxDead env.brkAllow (acceptableOf fs) (transactFn env.connOk f b)).mark = some m →
+      m = (builtinAcceptable (transactCtx env f b).ret || fs.any (· (transactCtx env f b).ret))) := by
+  have hw := transactCtx_is_wrapped_transact env f b
+  have hm := brkDo_mark_only env.ctxDone env.ctxDead env.brkAllow (acceptableOf fs) (acceptable env.userAccept)
+    (transactFn env.connOk f b)
+  rw [← hw] at hm
+  have hh : holds (brkDo env.ctxDone env.ctxDead env.brkAllow (acceptableOf fs) (transactFn env.connOk f b)) = true := by
+    rw [hm, holds_mark]; exact holds_ctx env f b
+  refine ⟨hh, violated_nil_of_holds _ hh, hm, ?_⟩
+  intro m hmk
+  have hret : (transactCtx env f b).ret =
+      (brkDo env.ctxDone env.ctxDead env.brkAllow (acceptableOf fs) (transactFn env.connOk f b)).ret := by
+    rw [hm]
+  rw [hret]
+  unfold brkDo at hmk ⊢
+  cases h1 : env.ctxDone <;> cases h2 : env.brkAllow <;> simp [h1, h2] at hmk ⊢
+  obtain ⟨_, h⟩ := hmk
+  rw [← h, acceptableOf_eq]
+
+/-- the model's two-function configurations are instances of it -/
+theorem acceptable_is_acceptableOf (ua : UA) (e : Option Err) :
+    acceptable ua e = acceptableOf ua.installed e := by
+  rw [acceptable_probes, acceptableOf_eq]
+  obtain ⟨a1, a2⟩ := ua
+  cases a1 <;> cases a2 <;> simp [builtinAcceptable, UA.installed, userFn1, userFn2, Bool.or_assoc]
+
+example : acceptableOf [fun e => hasCls e .userOk2, fun _ => false] (some (Err.of (.rollback .userOk2))) = true := by
+  decide
+
+/-- **No second transaction, no second run of the body — at every entry point**, whatever error any fault point
+produced (the model has no retry: a statement, Commit or Rollback answered driver.ErrBadConn is an ordinary
+error; the seeded change C14-7 re-ran `transactOnConn` on such an error). -/
+theorem no_second_transaction (ep : Entry) (env : Env) (f : Faults) (b : Body) :
+    (runEntry ep env f b).runs ≤ 1 ∧ count isBeginOk (runEntry ep env f b).log ≤ 1 ∧
+    count isBegin (runEntry ep env f b).log ≤ 1 ∧ count isEnd (runEntry ep env f b).log ≤ 1 := by
+  have key : ∀ (env : Env) (b : Body), (transactCtx env f b).runs ≤ 1 ∧ count isBeginOk (transactCtx env f b).log ≤ 1 ∧
+      count isBegin (transactCtx env f b).log ≤ 1 ∧ count isEnd (transactCtx env f b).log ≤ 1 := by
+    intro env b
+    have h1 := begins_at_most_one_transaction env f b
+    have h2 := body_runs_iff_begun env f b
+    have h3 := ends_exactly_once env f b
+    refine ⟨?_, ?_, h1.2.1, ?_⟩
+    · rw [h2.1]; split <;> omega
+    · rw [h1.1]; split <;> omega
+    · cases ho : opened env f
+      · rw [(h3.2 ho).2.2.2.1]; omega
+      · rw [(h3.1 ho).2.2.2.2.1]; omega
+  cases ep
+  case nested => simp [runEntry, count]
+  case nestedCtx => simp [runEntry, count]
+  all_goals exact key _ _
+
+/-- what the seeded change C14-7 did (statement answered ErrBadConn, rolled back, everything done again) -/
+example : violated
+    { log := [.begin true, .exec 0 false, .rollback true, .begin true, .exec 0 false, .rollback true],
+      runs := 2, body := .err (Err.of (.stmt 0)), ret := some (Err.of (.stmt 0)), mark := some false }
+    = ["begins-once", "ends-exactly-once", "body-runs-iff-begun"] := by decide
+
+/-- what the seeded change C14-6 did (a non-error panic swallowed by a wrapper around the body: committed, nil) -/
+example : violated { log := [.begin true, .commit true], runs := 1, body := .panic, ret := none }
+    = ["commit-iff-body-ok", "rollback-iff-body-failed", "panic-reported"] := by decide
+
+/-! ### sequences of calls on several connections -/
+
+/-- one call of a section: entry point, which of the two connections, environment, fault plan, body -/
+structure Call where
+  ep : Entry
+  second : Bool
+  env : Env
+  f : Faults
+  b : Body
+
+/-- the calls of a section, in order, on two connections built with their own options: each call sees the options
+of ITS connection; nothing else is carried from one call to the next (the breaker's history is the `brkAllow`
+input of each call) -/
+def runCalls (ua0 ua1 : UA) (cs : List Call) : List Result :=
+  cs.map fun c => runEntry c.ep { c.env with userAccept := if c.second then ua1 else ua0 } c.f c.b
+
+/-- **Every call of every sequence**, on either connection, through any entry point, after any history: all
+clauses hold and the breaker is told what the connection's OWN options say. -/
+theorem call_sequences_hold (ua0 ua1 : UA) (cs : List Call) :
+    (runCalls ua0 ua1 cs).all (fun r => holds r) = true ∧
+    (runCalls ua0 ua1 cs).length = cs.length ∧
+    ∀ c ∈ cs, breakerTold (if c.second then ua1 else ua0)
+      (runEntry c.ep { c.env with userAccept := if c.second then ua1 else ua0 } c.f c.b) = true := by
+  refine ⟨?_, by simp [runCalls], ?_⟩
+  · simp only [runCalls, List.all_map, List.all_eq_true]
+    intro c _
+    exact (every_entry_point_holds c.ep _ c.f c.b).1
+  · intro c _
+    exact (every_entry_point_holds c.ep { c.env with userAccept := if c.second then ua1 else ua0 } c.f c.b).2.2
+
+example : (runCalls { a1 := true } {} [⟨.transact, false, envOk, { begin := true, commit := true, rollback := true }, { stmts := [], fin := .err .userOk }⟩,
+    ⟨.transact, true, envOk, { begin := true, commit := true, rollback := true }, { stmts := [], fin := .err .userOk }⟩]).map (·.mark)
+    = [some true, some false] := by decide
+
 end GoZero.C14.Props
